@@ -267,4 +267,5 @@ func c09(p *model.Prog, r *report.Result) {
 		r.Check(c.ok, "C09.R3", fkey(pack, "ts-header", c.name), p.Pos(pack.Pos()), "present", "Frame.Pack no longer writes the "+c.name+" as ISO/IEC 13818-1 lays it out")
 	}
 	c09Placement(p, r)
+	c09r6(p, r)
 }
